@@ -36,10 +36,16 @@ pub fn exec(toks: &[&str]) -> Vec<String> {
         "bloom.query" => {
             let bytes = unhx(toks[1]);
             let h = ChangeHash::try_from(unhx(toks[2]).as_slice()).expect("hash");
-            match BloomFilter::try_from(bytes.as_slice()) {
+            // C17 direct oracle: decoding a filter of n bytes and querying it must take time bounded by n
+            let t0 = std::time::Instant::now();
+            let r = match BloomFilter::try_from(bytes.as_slice()) {
                 Ok(f) => vec![format!("ok {}", f.contains_hash(&h))],
                 Err(_) => vec!["err".into()],
-            }
+            };
+            let mut r = r;
+            let ms = t0.elapsed().as_millis();
+            if ms > 250 + bytes.len() as u128 { r.push(format!("! C17 sig=slow-bloom-query a {}-byte filter took {} ms to decode and query once", bytes.len(), ms)); }
+            r
         }
         // bloom.parse <bytes> -> ok <re-encoded bytes> / err
         "bloom.parse" => {
@@ -76,7 +82,7 @@ pub fn generate(r: &mut Rng, _opts: &BTreeMap<String, String>, sess: &mut Sessio
     for _ in 0..6 {
         let ne = match r.below(5) { 0 => 0, 1 => 1, 2 => r.below(40), 3 => r.edgy_u64(), _ => r.below(5) };
         let bpe = match r.below(5) { 0 => 0, 1 => 10, 2 => r.below(40), 3 => r.edgy_u64(), _ => 8 };
-        let np = match r.below(5) { 0 => 0, 1 => 7, 2 => r.below(40), 3 => r.below(2000), _ => 1 };
+        let np = match r.below(6) { 0 => 0, 1 => 7, 2 => r.below(40), 3 => r.below(2000), 4 => r.edgy_u64(), _ => 1 };
         let want = ((ne as u128 * bpe as u128) + 7) / 8;
         let nbits = if want <= 4096 && r.chance(4, 5) { want as usize } else { r.below(64) as usize };
         let mut bytes = vec![];
